@@ -261,13 +261,16 @@ func (multiSource *MultiSource) processDependency(ctx context.Context, dep Depen
 						// improve this using the previous seq-numbers of the specific entity to find timestamps.
 						// also run queries for all changed versions of the entity, not just the last one,
 						// with the respective recorded times of each change
-						changes, err5 := depDataset.GetChanges(since, 1, false)
+						changes, err5 := depDataset.GetChanges(since, 2, false)
 						if err5 != nil {
 							errChan <- err5
 							return
 						}
 						if len(changes.Entities) > 0 {
 							timestamp := int64(changes.Entities[0].Recorded)
+							// all entities of one stored batch share a recorded time. if this run starts in the middle
+							// of such a batch, that time already shows the new state: also look just before the batch
+							midBatch := len(changes.Entities) > 1 && changes.Entities[1].Recorded == changes.Entities[0].Recorded
 							// create a copy of relatedFrom with back-dated timestamp
 							prevRelatedFrom := relatedFrom
 							prevRelatedFrom.At = timestamp
@@ -287,6 +290,13 @@ func (multiSource *MultiSource) processDependency(ctx context.Context, dep Depen
 							}
 							if c != nil {
 								prevRelatedFrom = c
+								goto repeatPrevQuery
+							}
+							if midBatch {
+								midBatch = false
+								timestamp--
+								prevRelatedFrom = relatedFrom
+								prevRelatedFrom.At = timestamp
 								goto repeatPrevQuery
 							}
 
